@@ -155,6 +155,9 @@ func genHostile(st *simrt.Stream, spec *TorSpec, p *RefPeer) hostileMsg {
 		if mm.Type == 1 {
 			mm.HasTotalSize = true
 			mm.TotalSize = simrt.Pick(st, tl, tl, 0, tl+1, 128<<20, 1<<32-1)
+			if st.Bool(1, 6) {
+				mm.HasTotalSize = false // optional in practice: some clients leave it out
+			}
 			n := simrt.Pick(st, 16384, 0, 1, 16383, 16385, int(tl%16384))
 			lo := mm.Piece * 16384
 			if lo >= 0 && lo < tl && st.Bool(1, 2) {
@@ -208,7 +211,7 @@ func hostileMain(rc *RunCtx) {
 	w := NewWorld(rc)
 	defer w.Shutdown()
 	magnet := st.Bool(1, 2)
-	spec := GenTorSpec(st, SpecOpts{MaxPieces: 8, MultiFile: 1})
+	spec := GenTorSpec(st, SpecOpts{MaxPieces: 8, MultiFile: 1, BigInfo: true})
 	quiet := st.Bool(1, 2)
 	config.SetIdleRate(0)
 	if !quiet {
